@@ -43,10 +43,6 @@ func runThorough(def PropertyDef, rep *Report, repo string, extra map[string]any
 			rep.Infra = append(rep.Infra, "verdicts under GOARCH=386 differ from the default configuration:\n  default: "+a+"\n  386:     "+b)
 		}
 	}
-	// the replayed variants (b)-(d) run the property's own rules; shared obligations (shared.go) are
-	// part of the base run and of its GOARCH=386 twin only
-	sharedEnabled = false
-	defer func() { sharedEnabled = true }()
 	// (b) seeded variants
 	var results []seedResult
 	fired, missed, skipped := 0, 0, 0
